@@ -369,7 +369,10 @@ func createWireSubject(o *Order, csr *x509.CertificateRequest) (subject x509util
 			for _, entry := range csr.Subject.Names {
 				if entry.Type.Equal(displayNameOid) {
 					foundDisplayName = true
-					displayName := entry.Value.(string)
+					displayName, ok := entry.Value.(string)
+					if !ok {
+						return subject, NewError(ErrorBadCSRType, "display name in '2.16.840.1.113730.3.1.241' OID is not a string")
+					}
 					if displayName != wireID.Name {
 						return subject, NewErrorISE("expected displayName %v, found %v", wireID.Name, displayName)
 					}
